@@ -7,6 +7,10 @@ import (
 
 // parse and return tag and length, also the length of two parts
 func parseTagAndLength(bytes []byte) (r tagAndLen, off int, e error) {
+	if len(bytes) == 0 {
+		e = fmt.Errorf("no data: identifier octet expected")
+		return r, off, e
+	}
 	off++
 	r.class = int(bytes[0] >> 6)
 	r.constructed = (bytes[0] & 0x20) != 0
@@ -35,21 +39,25 @@ func parseTagAndLength(bytes []byte) (r tagAndLen, off int, e error) {
 		r.len = int64(bytes[off])
 		off++
 	} else {
-		len := int(bytes[off] & 0x7f)
-		// fmt.Println("len", len)
-		if len > 3 {
+		n := int(bytes[off] & 0x7f)
+		// fmt.Println("len", n)
+		if n > 3 {
 			e = fmt.Errorf("length is too large")
 			return r, off, e
 		}
 		off++
+		if off+n > len(bytes) {
+			e = fmt.Errorf("length octets out of range")
+			return r, off, e
+		}
 		// the length is an unsigned number (X.690 8.1.3.5)
 		var val int64
-		for _, b := range bytes[off : off+len] {
+		for _, b := range bytes[off : off+n] {
 			val = val<<8 | int64(b)
 		}
 
 		r.len = val
-		off += len
+		off += n
 	}
 
 	return r, off, e
